@@ -125,6 +125,8 @@ MUTANTS = {
         ("lockout_threshold_100", [("debug/__init__.py", "elif self._failed_pin_auth.value > 10:", "elif self._failed_pin_auth.value > 100:")]),
         ("console_without_host_check", [("debug/__init__.py", "    def check_host_trust(self, environ: WSGIEnvironment) -> bool:\n        return host_is_trusted(environ.get(\"HTTP_HOST\"), self.trusted_hosts)", "    def check_host_trust(self, environ: WSGIEnvironment) -> bool:\n        return environ.get(\"HTTP_HOST\") is None or host_is_trusted(environ.get(\"HTTP_HOST\"), self.trusted_hosts)")]),
         ("expired_cookie_accepted", [("debug/__init__.py", "return (time.time() - PIN_TIME) < ts", "return True")]),
-        ("port_not_stripped_from_entry", [("sansio/utils.py", "            ref = ref.partition(\":\")[0].encode(\"idna\").decode(\"ascii\")", "            ref = ref.encode(\"idna\").decode(\"ascii\")")]),
+        ("port_not_stripped_from_entry", [("sansio/utils.py", "        ref_name = _strip_port(ref)\n", "        ref_name = ref\n")]),
+        ("unclosed_bracket_passes", [("sansio/utils.py", "            # The bracket is never closed, this is not an address literal.\n            return None", "            return host")]),
+        ("pin_off_for_any_non_numeric_value", [("debug/__init__.py", "    if pin == \"off\":\n        return None, None", "    if pin is not None and not pin.replace(\"-\", \"\").isdecimal():\n        return None, None")]),
     ],
 }
